@@ -163,7 +163,10 @@ def confirm(binp, i, ops):
     for _ in range(2):
         rc, out, err = vlib.run([binp, "--replay", ops, "--K", str(i["K"]), "--L", str(i["L"]), "--reloc", str(i.get("reloc", 0))], timeout=120)
         outs.append((rc, re.sub(r"0x[0-9a-f]+", "0x", out), err[-1500:]))
-    same = outs[0][0] == outs[1][0] and outs[0][1] == outs[1][1]
+    # identical observations are required for oracle failures (rc 1); when the process dies (sanitizer report, signal,
+    # watchdog) the two runs must both die, the exact signal / partial output may differ (use-after-free is UB)
+    died = [o[0] not in (0, 1) or "FAIL [" not in o[1] for o in outs]
+    same = (outs[0][0] == outs[1][0] and outs[0][1] == outs[1][1]) or (all(died) and outs[0][0] != 0 and outs[1][0] != 0)
     return (outs[0][0] != 0 and same), same, outs[0]
 
 
